@@ -21,7 +21,7 @@ func relayCfg(id, tier string) relay.Config {
 		// every ERC-20 amount is a multiple of 2^64+1: above 64 bits, with non-zero low bits (truncation anywhere on the way shows)
 		c := relay.Config{Prop: id, Chains: 2, MaxSends: 2, Depth: 10, Scale: new(big.Int).Add(new(big.Int).Lsh(big.NewInt(1), 64), big.NewInt(1)),
 			Sends:     []string{"A B erc20 3", "B A back 1", "A B erc20+callrevert 1", "A B feeonly1 1"},
-			RecvForms: []string{"g1"}, AckForms: []string{"g1"}}
+			RecvForms: []string{"g1", "alt"}, AckForms: []string{"g1"}}
 		if strings.HasPrefix(tier, "thorough") {
 			c.MaxSends, c.Depth = 3, 14
 		}
@@ -31,7 +31,7 @@ func relayCfg(id, tier string) relay.Config {
 		// the traces of the bound ERC-20 tokens were registered with scale 0 and corrected to scale 2 before the first transfer
 		c := relay.Config{Prop: id, Chains: 2, MaxSends: 2, Depth: 13, TraceScale: 2,
 			Sends:     []string{"A B erc20 3", "B A back 1", "A B erc20+callrevert 1", "B A back+callrevert 1"},
-			RecvForms: []string{"g1"}, AckForms: []string{"g1"}}
+			RecvForms: []string{"g1", "alt"}, AckForms: []string{"g1", "altpkt"}}
 		if strings.HasPrefix(tier, "thorough") {
 			c.MaxSends, c.Depth = 3, 14
 		}
@@ -70,7 +70,7 @@ func relayCfg(id, tier string) relay.Config {
 		return c
 	case "C04":
 		c := relay.Config{Prop: id, Chains: 3, MaxSends: 3, Depth: 5,
-			Sends: []string{"A B erc20 1", "A C erc20 1", "A B unknown 1", "A B erc20 20000", "A B feeonly1 1", "A B direct 1", "B A erc20+agentgood 3", "B A erc20+agentbad 3", "A B native 1", "A B native+ctor 1", "A B forgedlog 1"},
+			Sends: []string{"A B erc20 1", "A C erc20 1", "A B unknown 1", "A B unknownslash 1", "A B unknowndot 1", "A B unknownup 1", "A B erc20 20000", "A B feeonly1 1", "A B direct 1", "B A erc20+agentgood 3", "B A erc20+agentbad 3", "A B native 1", "A B native+ctor 1", "A B forgedlog 1"},
 			RecvForms: []string{"g1"}, AckForms: []string{"g1"}}
 		if tier == "thorough" {
 			c.MaxSends, c.Depth = 4, 9
@@ -79,7 +79,7 @@ func relayCfg(id, tier string) relay.Config {
 	case "C05":
 		c := relay.Config{Prop: id, Chains: 2, MaxSends: 2, Depth: 12,
 			Sends: []string{"A B erc20 3", "A B erc20+callrevert 1", "B A native 3", "A B feeonly1 1", "A B erc20+hookfail 1", "A B erc20+agentbad 1"},
-			RecvForms: []string{"g1", "g2", "g3"}, AckForms: []string{"g1", "g2", "old", "conflict", "early", "dup2", "altpkt", "altfee"}}
+			RecvForms: []string{"g1", "g2", "g3", "g4"}, AckForms: []string{"g1", "g2", "old", "conflict", "early", "dup2", "altpkt", "altfee"}}
 		if tier == "thorough" {
 			c.MaxSends, c.Depth = 3, 16
 		}
